@@ -404,13 +404,13 @@ def no_shared_tables(ctx: Context) -> None:
     ctx.obligations[n_obl:] = [o for o in ctx.obligations[n_obl:] if o["verdict"] != "violated" or o["key"] in kept]
 
 
-def restored_records_identity(ctx: Context, extra: tuple[str, ...] = ()) -> None:
+def restored_records_identity(ctx: Context, extra: tuple[str, ...] = (), only: tuple[str, ...] | None = None) -> None:
     """After a restore label i still belongs to sample i: every per-sample record (parameters, losses, series, batch index, sampler id) comes back through
     the persistence chain unchanged - the field-plumbing rule of C04 (R1), kept to the per-sample fields (what C04 says about the other fields, including
     its known findings, is C04's business)."""
     from . import c04
     from ..persist import Plumbing
-    fields = ("params_samp", "losses_samp", "series_samp", "batch_num_samp", "method_samp", *extra)
+    fields = only if only is not None else ("params_samp", "losses_samp", "series_samp", "batch_num_samp", "method_samp", *extra)
     before, n_obl = len(ctx.findings), len(ctx.obligations)
     c04.r1_plumbing(ctx, Plumbing(ctx.prog))
     keep = [f for f in ctx.findings[before:] if any(fl in f.key for fl in fields)]
